@@ -136,5 +136,37 @@ doMetaOp(char **tok, int ntok) {
 		printf("OK\n");
 		return 1;
 	}
+	if (!strcmp(tok[0], "PWD")) {
+		/* PWD : the working directory of the harness */
+		char *d = getcwd(NULL, 0);
+		printf("PWD %s\n", d ? d : "null");
+		free(d);
+		return 1;
+	}
+	if (!strcmp(tok[0], "MKDIRP") && ntok >= 2) {
+		/* MKDIRP <path> : mkdir -p */
+		char *p = strdup(tok[1]), *c;
+		for (c = p + 1; *c; c++)
+			if (*c == '/') {
+				*c = 0;
+				mkdir(p, 0777);
+				*c = '/';
+			}
+		mkdir(p, 0777);
+		free(p);
+		{
+			struct stat st;
+			printf(stat(tok[1], &st) == 0 && S_ISDIR(st.st_mode) ? "OK\n" : "FAIL\n");
+		}
+		return 1;
+	}
+	if (!strcmp(tok[0], "ENVSET") && ntok >= 3) {
+		/* ENVSET NAME hexvalue : like ENV but "-" sets the EMPTY string */
+		char *v = hexstr(tok[2]);
+		setenv(tok[1], v, 1);
+		free(v);
+		printf("OK\n");
+		return 1;
+	}
 	return 0;
 }
